@@ -539,7 +539,7 @@ public:
 
     Matrix eigenvectors()
     {
-        return m_evectors;
+        return Matrix(X);  // the n x k iterate (m_evectors holds the small Rayleigh-Ritz coefficient matrix)
     }
 
     Matrix residuals()
